@@ -7,7 +7,7 @@ From Arsenal Require Import Util Budget BudgetProofs VamDev VamBlockList VamDefr
 From Arsenal Require Import VamInvStep VamInvStep2 VamInvThm VamProps VamAcct VamAcctStep VamAcctStep2 VamAcctThm VamMap VamMapStep VamMapStep2 VamMapThm.
 From Arsenal Require Import VamHv VamHvStep VamHvStep2 VamHvThm.
 From Arsenal Require Import VamDefragInv VamDefragStep VamDefragPass VamDefragThm VamDefragAcct VamDefragMap.
-From Arsenal Require Pass PassProofs Defrag DefragProofs SyncMem SyncMemProofs.
+From Arsenal Require Pass PassProofs Defrag DefragProofs DefragGranProofs SyncMem SyncMemProofs VamDefragBridge.
 Import ListNotations.
 Open Scope Z_scope.
 
@@ -101,6 +101,68 @@ Proof.
   destruct P as (H1 & T1 & G1). destruct PM as (M1 & N1). apply (IH w1 lr ty0 v1); auto.
 Qed.
 
+Lemma commit_attempt_HH w lr slot dst ty0 v1 :
+  HHc w [] -> MM ms0 w [] -> TB w lr ty0 -> grown v1 w -> Z.of_nat slot < zlen (v_tab v1) ->
+  (a_persist (get_alloc v1 (Z.of_nat slot)) = true -> host_visible c ty0 = true) ->
+  HHc (fst (commit_attempt c w lr slot dst)) [] /\ TB (fst (commit_attempt c w lr slot dst)) lr ty0 /\ grown v1 (fst (commit_attempt c w lr slot dst)).
+Proof.
+  intros (LH & PI) (MI & L) HT HG Hsrc Hp. unfold commit_attempt.
+  destruct (get_block w lr dst) as [b|] eqn:Hgb; [|cbn [fst]; split; [split; auto|auto]].
+  destruct (get_block_in _ _ _ _ Hgb) as (l & Hg & Hb & Hbid).
+  destruct (HT l Hg) as (Ety & Hmt).
+  assert (Esrc : get_alloc w (Z.of_nat slot) = get_alloc v1 (Z.of_nat slot)).
+  { unfold get_alloc. rewrite (proj2 HG) by exact Hsrc. reflexivity. }
+  rewrite Esrc.
+  pose proof (sm_sub_M ms0 (v_m w) (bk_mem b) (bk_sm b) L (mi_blocks _ _ MI _ _ _ Hg Hb)) as Psub.
+  pose proof (sm_sub_ext (v_m w) (bk_mem b) (bk_sm b)) as Esub. pose proof (sm_sub_types (v_m w) (bk_mem b) (bk_sm b)) as Tsub.
+  destruct (sm_sub (v_m w) (bk_mem b) (bk_sm b)) as (m1 & s1). cbn [fst] in Esub, Tsub.
+  assert (LH1 : LogHV c ms0 m1) by (eapply LogHV_ext; eauto).
+  assert (Pmap : forall m2 s2 (mr : out unit),
+            (if a_persist (get_alloc v1 (Z.of_nat slot)) then sm_map c m1 (bk_mem b) s1 else (m1, s1, OK tt)) = (m2, s2, mr) ->
+            LogHV c ms0 m2 /\ types_kept (v_m w) m2).
+  { intros m2 s2 mr E. destruct (a_persist (get_alloc v1 (Z.of_nat slot))) eqn:Ep.
+    - assert (Hty : forall d, find_mem (m_mems m1) (bk_mem b) = Some d -> host_visible c (dm_type d) = true).
+      { intros d Fd. destruct (Tsub _ _ Fd) as (d0 & F0 & E0). rewrite E0, (Hmt b d0 Hb F0). auto. }
+      pose proof (sm_map_H c ms0 m1 (bk_mem b) s1 LH1 (proj1 Psub) Hty) as P. pose proof (sm_map_types c m1 (bk_mem b) s1) as T.
+      rewrite E in P, T. cbn [fst] in P, T. split; [exact P|eapply types_kept_trans; eauto].
+    - injection E as <- _ _. auto. }
+  destruct (if a_persist (get_alloc v1 (Z.of_nat slot)) then sm_map c m1 (bk_mem b) s1 else (m1, s1, OK tt)) as ((m2 & s2) & mr) eqn:Emap.
+  destruct (Pmap _ _ _ eq_refl) as (LH2 & T2). cbn [fst].
+  set (b2 := mkBlock (bk_id b) (bk_mem b) s2 (bk_meta b)).
+  set (v2 := put_block (set_m w m2) lr b2).
+  assert (Et2 : v_tab v2 = v_tab w) by (unfold v2; rewrite put_block_tab; reflexivity).
+  assert (Hg2m : get_blist (set_m w m2) lr = Some l) by (rewrite get_blist_set_m; exact Hg).
+  split; [|split].
+  - split; [unfold v2; rewrite put_block_m; exact LH2|].
+    intros s a Sa HX Hpa. apply (PI s a); [|exact HX|exact Hpa]. unfold slot_is in *. rewrite Et2 in Sa. exact Sa.
+  - intros l0 G0. unfold v2 in G0. rewrite (put_block_eq _ _ _ _ Hg2m) in G0.
+    rewrite (get_set_blist_same _ _ _ _ Hg2m) in G0. injection G0 as <-. split; [exact Ety|].
+    intros b0 d0 B0 F0. unfold v2 in F0. rewrite put_block_m in F0. cbn [v_m set_m] in F0.
+    destruct (T2 _ _ F0) as (d1 & F1 & E1). rewrite E1. cbn in B0.
+    destruct (replace_block_cases _ _ _ B0) as [->|Hin]; [apply (Hmt b d1 Hb F1)|apply (Hmt b0 d1 Hin F1)].
+  - destruct HG as (G1 & G2). split; [rewrite Et2; exact G1|]. intros s Hs. rewrite Et2. apply G2. exact Hs.
+Qed.
+
+Definition src_hv (v1 : vam) (ty0 : Z) (slot : Z) : Prop :=
+  slot < zlen (v_tab v1) /\ (a_persist (get_alloc v1 slot) = true -> host_visible c ty0 = true).
+
+Lemma replay_HH log : forall w lr ty0 v1,
+  HHc w [] -> MM ms0 w [] -> NA w -> TB w lr ty0 -> grown v1 w ->
+  Forall (fun a => src_hv v1 ty0 (Z.of_nat (DefragGranProofs.at_slot a))) log ->
+  let '(w', r) := replay_log c w lr log in match r with OK _ => HHc w' [] | _ => True end.
+Proof.
+  induction log as [|[slot dst|mv] tl IH]; intros w lr ty0 v1 HH0 HM HN HT HG Hall; cbn [replay_log]; [exact HH0| |];
+    inversion Hall as [|? ? (Hs1 & Hp1) Hs2]; subst; cbn [DefragGranProofs.at_slot] in *.
+  - destruct (commit_attempt_HH w lr slot dst ty0 v1 HH0 HM HT HG Hs1 Hp1) as (H1 & T1 & G1).
+    destruct (VamDefragMap.commit_attempt_MM c Hc Hmax Hlarge ms0 w lr slot dst HM HN) as (M1 & N1).
+    destruct (commit_attempt c w lr slot dst) as (w1 & r). cbn [fst] in *.
+    destruct r as [[]|code| |]; try exact I. apply (IH w1 lr ty0 v1); auto.
+  - pose proof (commit_move_HH w lr mv ty0 v1 HH0 HM HT HG Hs1 Hp1) as P.
+    pose proof (VamDefragMap.commit_move_MM c Hc Hmax Hlarge ms0 w lr mv HM HN) as PM.
+    destruct (commit_move c w lr mv) as (w1 & r). destruct r as [[]|code| |]; auto.
+    destruct P as (H1 & T1 & G1). destruct PM as (M1 & N1). apply (IH w1 lr ty0 v1); auto.
+Qed.
+
 Lemma collect_list_HH v dc p :
   VamInv c v -> MM ms0 v [] -> HHc v [] -> Defrag.c_moves (dc_ctx dc) = [] -> PassProofs.pass_running p ->
   (forall l, get_blist v (dc_lr dc) = Some l -> bl_gran l = 1) ->
@@ -113,16 +175,14 @@ Proof.
   { unfold project in Ep. rewrite Hg in Ep. destruct (project_blocks (bl_blocks l)) as [bl|]; [|discriminate]. injection Ep as <-. eauto. }
   destruct Est as (bl & Epb & Est).
   pose proof (project_wf c v (dc_lr dc) l st HI Hg (HG1 l eq_refl) Ep) as HW.
-  destruct (DefragProofs.collect_moves_inv st (dc_ctx dc) p HW Hrun) as (new & HC & _).
-  destruct (Defrag.collect_moves st (dc_ctx dc) p) as (cs & wr). cbn [fst] in HC.
-  pose proof (DefragProofs.ci_moves _ _ _ _ _ _ HC) as Hms. rewrite Hidle in Hms. cbn [app] in Hms.
-  rewrite Hidle. cbn [length skipn]. rewrite Hms.
+  pose proof (VamDefragBridge.collect_moves_f_strace_g1 vam (att_commit c (dc_lr dc)) st (dc_ctx dc) p v HW Hrun) as HT. cbn zeta in HT.
+  destruct (Defrag.collect_moves_f vam (att_commit c (dc_lr dc)) st (dc_ctx dc) p v) as (((cs & env) & log) & wr).
+  unfold Defrag.log_f, Defrag.env_f in HT. cbn [fst snd] in HT.
   set (ty0 := bl_type l).
-  (* the sources of the new moves are block allocations of the list *)
-  assert (Hsrc : Forall (fun mv => src_of mv < zlen (v_tab v) /\ (a_persist (get_alloc v (src_of mv)) = true -> host_visible c ty0 = true)) new).
-  { apply Forall_forall. intros m Hm. subst st.
-    destruct (tmp_region_exists _ _ _ _ cs new m HW eq_refl HC Hm) as (_ & _ & es & _ & _ & E1 & _).
-    destruct (entry_project _ _ _ _ _ _ E1) as (a & Sa & Ka & La & _). fold (src_of m) in Sa.
+  (* the sources of the attempts are block allocations of the list *)
+  assert (Hsrc : Forall (fun a => src_hv v ty0 (Z.of_nat (DefragGranProofs.at_slot a))) log).
+  { destruct HT as (_ & Hsl). eapply Forall_impl; [|exact Hsl]. intros a (es & E1 & _). subst st.
+    destruct (entry_project _ _ _ _ _ _ E1) as (a0 & Sa & Ka & La & _).
     split; [apply (slot_is_range _ _ _ Sa)|]. rewrite (get_alloc_slot _ _ _ Sa). intros Hp.
     destruct (vi_slots _ _ _ _ HI _ _ Sa (fun H => H)) as [(_ & l2 & b2 & rg & G2 & _ & _ & _ & _ & _ & _ & _ & _ & Ty2)|(K & _)]; [|congruence].
     rewrite La in G2. assert (l2 = l) by congruence. subst l2. unfold ty0. rewrite <- Ty2. apply (proj2 HH0 _ _ Sa (fun H => H) Hp). }
@@ -147,7 +207,7 @@ Proof.
     destruct (vi_block_mem _ _ _ _ HI _ _ _ Hg Hb) as (d0 & F0 & T0 & _). assert (d0 = d) by congruence. subst d0. exact T0. }
   assert (G1 : grown v v1) by (unfold v1; split; [rewrite set_blist_tab; lia|intros; rewrite set_blist_tab; reflexivity]).
   destruct wr as [| |why]; [| |exact I];
-    (pose proof (commit_moves_HH new v1 (dc_lr dc) ty0 v H1 M1 N1 T1 G1 Hsrc) as P; destruct (commit_moves c v1 (dc_lr dc) new) as (v2 & r);
+    (pose proof (replay_HH log v1 (dc_lr dc) ty0 v H1 M1 N1 T1 G1 Hsrc) as P; destruct (replay_log c v1 (dc_lr dc) log) as (v2 & r);
      destruct r as [[]|code| |]; auto).
 Qed.
 
